@@ -283,9 +283,10 @@ void CheckerComponent::ExecuteCheckHelper(const Checkable::Ptr& checkable)
 
 			if (checkable->IsActive())
 				m_IdleCheckables.insert(GetCheckableScheduleInfo(checkable));
-
-			m_CV.notify_all();
 		}
+
+		/* A check slot has become free in any case (even if the object was paused or re-added meanwhile). */
+		m_CV.notify_all();
 #ifdef ICINGA2_VERIF
 		VERIF_POINT("helper.finish", checkable.get());
 #endif /* ICINGA2_VERIF */
